@@ -369,6 +369,15 @@ func genTokens(rng *Rng, thorough bool, emit func(tc tokCase)) {
 				emit(tokCase{class: pn + "component-field/" + kindName(w), n: t})
 			}
 		}
+		// a conformant token padded with unknown keys up to 16, 24, 40 entries: still conformant
+		for _, extra := range []int{6, 9, 17, 33} {
+			t := fullBase()
+			for k := 0; k < extra; k++ {
+				t.Pairs = append(t.Pairs, [2]*Node{nUint(uint64(70000 + k)), nUint(uint64(k))})
+			}
+			shuffle(rng, t)
+			emit(tokCase{class: pn + "many-unknown-keys", n: t})
+		}
 		// profile claim variants
 		if p == 1 {
 			for _, v := range []*Node{nTstr(psa.Profile1Name), nTstr(psa.Profile2Name), nTstr(""), nNull(), nUint(1)} {
